@@ -9,6 +9,7 @@ import GB.C02.Paths
 import GB.C02.WsStall
 import GB.C02.HttpEpilogue
 import GB.C02.Product
+import GB.C02.Discipline
 /-
   C02 — every bridged call terminates promptly and releases its resources.
 
@@ -749,3 +750,87 @@ theorem C02_product_unilateral_return_enabled (p : Params) (q : GB.WCtx.Params) 
   cases hst : GB.WCtx.step q s.2 .takeCtx with
   | none => rw [hst] at hen; cases hen
   | some a' => simp [GB.Prod.pstep, hs, GB.Prod.adapterLabel, hnc, hro, hce.2, hst]
+
+/-! ### Round 6: Forward's call discipline towards the OUTGOING stream (GB/C02/Discipline.lean)
+
+  gRPC-Go: SendMsg ∥ SendMsg, RecvMsg ∥ RecvMsg and CloseSend ∥ SendMsg on one `grpc.ClientStream` are forbidden; only
+  cancelling the stream's context may overlap anything. `GB.Fwd.monRun` is a contract checker over the LABELS of a run
+  (what a contract-checking fake ClientStream does). -/
+
+/-- Over ALL runs of Forward (every RPC kind, peers, faults, cancellations, interleavings): the contract checker never
+    fires — no Send while a Send Forward issued is in progress, no CloseSend while a Send is in progress, no
+    Recv/Header/Trailer while a Recv is in progress; its counters ARE the state's in-flight counts, and those never
+    exceed one per direction. -/
+theorem C02_out_call_discipline (p : Params) (tr : List (Label M E)) (s : State M E) (h : Run p tr s) :
+    (monRun false tr).bad = false ∧ (monRun false tr).sends = sendsInFlight s ∧
+    (monRun false tr).recvs = recvsInFlight s ∧ sendsInFlight s ≤ 1 ∧ recvsInFlight s ≤ 1 :=
+  ⟨(dinv_run h).ok, (dinv_run h).snd, (dinv_run h).rcv, sends_le_one p s h.sinv, recvs_le_one s⟩
+
+/-- Forward never issues `outgoing.CloseSend()` while an `outgoing.Send` it issued is still in progress (neither the
+    unary-request one of main nor the request pump's): both call sites, any reachable state. -/
+theorem C02_closesend_never_during_send (p : Params) (s s' : State M E) (hr : Reachable p s)
+    (hs : step p s .outCloseSend = some s') : sendsInFlight s = 0 ∧ sendsInFlight s' = 0 := by
+  have h0 := (same_side_sequential p s s' _ (sinv_reach p s hr) hs).1 rfl
+  refine ⟨h0, ?_⟩
+  have S' := sinv_step p s _ s' (sinv_reach p s hr) hs
+  obtain ⟨s1, hc, rfl⟩ := step_core hs
+  simp only [stepCore] at hc
+  split at hc <;> (try cases hc) <;> simp_all [sendsInFlight]
+
+/-- Single owner per direction, extended to CloseSend, Header, Trailer and Close: a send-side call (Send, CloseSend) is
+    issued only with no Send in flight, a receive-side call (Recv, Header, Trailer) only with no Recv in flight — so
+    `outgoing.Close()` is the ONLY call on the outgoing stream that can overlap an operation of its own direction. -/
+theorem C02_single_owner_out (p : Params) (s s' : State M E) (l : Label M E) (hr : Reachable p s)
+    (hs : step p s l = some s') :
+    (sendSide l = true → sendsInFlight s = 0) ∧ (recvSide l = true → recvsInFlight s = 0) ∧
+    (outCall l = true → 0 < sendsInFlight s → 0 < recvsInFlight s → l = .outClose) := by
+  have h := same_side_sequential p s s' l (sinv_reach p s hr) hs
+  refine ⟨h.1, h.2, ?_⟩
+  intro hc h1 h2
+  cases l <;> simp_all [outCall, sendSide, recvSide]
+
+def C02_overlap_trace : List (Label Nat Nat) :=
+  [.outStreamCall, .outStreamRet .ok, .incRecvCall, .incRecvRet (.msg 7), .outSendCall 7, .outRecvCall,
+   .ctxDone .deadline, .tauSelCtx]
+
+/-- …and it really does (non-vacuity, kernel-checked): the deadline fires while the request pump is inside
+    outgoing.Send and the response pump inside outgoing.Recv; the next step of main is the deferred
+    `outgoing.Close()` with one Send and one Recv in flight — before `wg.Wait()`. -/
+theorem C02_close_overlaps_send_and_recv :
+    (GB.LTS.run (step { cs := true, ss := true, incAware := true, outAware := true }) (init Nat Nat)
+      C02_overlap_trace).map (fun s => (sendsInFlight s, recvsInFlight s,
+        (step { cs := true, ss := true, incAware := true, outAware := true } s .outClose).isSome)) =
+      some (1, 1, true) := by
+  decide
+
+/-- Negative witness for seeded change C18-m12 (`Close()` also calls `stream.CloseSend()`): on that very run the
+    contract checker fires at the deferred Close — CloseSend concurrent with SendMsg — whereas with the repository's
+    Close (cancel only) it does not. -/
+theorem C02_halfclosing_close_races :
+    (GB.LTS.run (step { cs := true, ss := true, incAware := true, outAware := true }) (init Nat Nat)
+      (C02_overlap_trace ++ [.outClose])).isSome = true ∧
+    (monRun true (C02_overlap_trace ++ [.outClose])).bad = true ∧
+    (monRun false (C02_overlap_trace ++ [.outClose])).bad = false := by
+  decide
+
+/-- Facts tie (regenerated from grpcadapter/stream.go on every run): the ONLY call expression anywhere inside
+    `AdaptedClientStream.Close` is `s.closeFunc` — no CloseSend, no method of the gRPC stream, no other receiver field
+    touched — and closeFunc is `sync.OnceFunc(cancel)` of a `context.WithCancel` (so Close is a context cancellation,
+    the one thing gRPC-Go allows concurrently with SendMsg/RecvMsg). -/
+theorem C02_facts_close_only_cancels :
+    GB.Generated.clientStreamCloseCalls = ["s.closeFunc"] ∧ GB.Generated.clientStreamCloseFieldUses = [] ∧
+    GB.Generated.clientStreamClose =
+      ["Close: s.closeFunc()", "cancel: context.WithCancel", "closeFunc: sync.OnceFunc(cancel)"] := by
+  decide
+
+/-- does Close do anything to the gRPC stream besides cancelling it (from the facts) -/
+def C02_closeTouchesStream : Bool :=
+  GB.Generated.clientStreamCloseCalls.any (· != "s.closeFunc") || !GB.Generated.clientStreamCloseFieldUses.isEmpty
+
+/-- The discipline for the repository's adapter, no parameter left: with Close as it is in grpcadapter/stream.go the
+    contract checker never fires on any run of Forward. -/
+theorem C02_out_call_discipline_repo (p : Params) (tr : List (Label M E)) (s : State M E) (h : Run p tr s) :
+    (monRun C02_closeTouchesStream tr).bad = false := by
+  have : C02_closeTouchesStream = false := by decide
+  rw [this]
+  exact (dinv_run h).ok
